@@ -150,7 +150,16 @@ func init() {
 	register(&Prop{ID: "C02", Level: "model_checking", QuickBudget: 100 * time.Second, ThoroughBudget: 25 * time.Minute,
 		Run: func(c *rt.Ctx) {
 			c.Cov["rule"] = "E3, one search per input_fee_ppk (quick {0,100,2500}, thorough {0,1,100,999,1000,2500}) plus one with MPP: every history up to the depth bound over {mint quote, settle, mint x {exact, less, +1, 2^63+2^63 wrap-around, amount 3}, swap x {inputs-fee, +1, inputs, wrap-around} on single / paired / mixed-keyset inputs and on the same proof twice (witness / DLEQ field changed), melt quote (external, external with a non-round msat amount, forged invoice carrying the payment hash of an own unpaid mint quote, internal, MPP partial incl. parts of 0 and 1500 msat), melt with inputs exactly amount+reserve+fee and one less x {Succeeded, Failed->Failed, Pending}, poll x {Succeeded, Failed}, rotate to a second fee}; Lightning model charges the whole fee limit; invariant in every state, in msat: outstanding ecash (model and the mint's own signature store, whichever is larger) + Lightning outflow incl. fee limits (+ in-flight beyond locked inputs) <= Lightning inflow + internal settlements, and every fee limit handed to the backend <= the quote's fee_reserve"
-			runSpecs(c, c02Specs(c.Quick()))
+			var main, deep []*bfs.Spec
+			for _, sp := range c02Specs(c.Quick()) {
+				if strings.HasSuffix(sp.Name, "-d5") {
+					deep = append(deep, sp)
+				} else {
+					main = append(main, sp)
+				}
+			}
+			runSpecs(c, main)
+			defer runSpecs(c, deep)
 			// inflation through a race (beyond the statement's sequential quantifier, cheap): the E1 scenarios of C01 / C03 under
 			// their value oracles — a quote issued beyond its payments, or ecash outstanding beyond the Lightning inflow
 			c.Cov["rule_schedules"] = "E1 (scenario bodies of C01 / C03): concurrent mint requests, polls and the invoice notification on one quote; swap / melt / pending-melt resolution on one proof; every interleaving at MintDB / Lightning call granularity with at most B preemptions; oracle: signatures issued <= quote amount x payments, outstanding + Lightning outflow <= inflow"
